@@ -311,6 +311,14 @@ def run(ctx):
                     continue
                 ctx.count("hidden_dot_sequences")
                 run_seq(ctx, list(tup), True)
+        # the same short sequences followed by one LONG clean segment: the quoted path crosses the compiled writer's 8 KiB / 16 KiB buffer
+        # sizes after everything that needed rewriting (%2E spellings, escapes) has already been written
+        if ctx.shard in (0, 1, 2, 3):
+            for head in (["a", "%2E%2E", "x", "%2e"], ["%2e", "b"], ["..", "c"], ["a", ".", "%2E"], ["a", "..", "%2e%2E", "b"], ["a.", ".%2E", "c"]):
+                for L in (8200, 16500):
+                    ctx.count("long_tail_sequences")
+                    run_seq(ctx, head + ["b" * L], True)
+                    run_seq(ctx, ["b" * L] + head, True)
         ctx.sample({"segs": ["a", ".\udc80.", "b"]})
         ctx.notes["kernel_total"] = i
         return
